@@ -408,6 +408,6 @@ def check_monitor(ctx, R="C11.monitor"):
 
 
 def check(ctx):
-    check_chain(ctx)
-    check_classes(ctx)
-    check_monitor(ctx)
+    ctx.run(check_chain)
+    ctx.run(check_classes)
+    ctx.run(check_monitor)
